@@ -28,9 +28,9 @@ Configs == [k \in 1..(2 * 3 * 3) |->
 \* the statement quantifies over seeds, styles and networks; a Latin-square style selection
 \* keeps the quick tier small: every style, seed and network occurs
 QuickCfgs    == {1, 14}                        \* native/s1/regtest, ldk/s2/testnet
-ThoroughCfgs == {1, 5, 9, 11, 15, 16}         \* each style x each seed, networks rotated
+ThoroughCfgs == {1, 9, 11, 15}                \* both styles, all seeds and networks occur
 ExploreCfgs  == IF Tier = "quick" THEN QuickCfgs ELSE ThoroughCfgs
-ScriptCfgs   == IF Tier = "quick" THEN {1, 5, 9, 11, 15, 16} ELSE 1..18
+ScriptCfgs   == IF Tier = "quick" THEN {1, 5, 9, 11, 15, 16} ELSE 1..18   \* quick: each style x each seed
 
 K(fam, n) == [style |-> "native", nids |-> n, nmax |-> NMax, oid |-> OidOf(fam)]
 
